@@ -340,7 +340,7 @@ func (c *Ctx) c12Cleanup() {
 				return true
 			}
 			nRef++
-			okRef := strings.HasPrefix(encl, "New") || strings.Contains(encl, ".evict")
+			okRef := strings.HasPrefix(encl, "New") || strings.Contains(encl, ".evict") || c.constructionOnly()(fn)
 			if !okRef {
 				bad = true
 				r.Bad("R12.1", encl, "evict-called-directly", c.Pos(sel.Pos()), "an evict function is used outside the constructors' Trait.Evict wiring", nil)
@@ -386,7 +386,7 @@ func (c *Ctx) replacedEntryKeeps(b BK, rule string, fields ...string) {
 			}
 			n++
 			for _, f := range fields {
-				fv := ent.Fields[f]
+				fv := p.FieldOf(ent, f)
 				ok := false
 				if f == "C" {
 					ok = fv != nil && fv.Kind == pw.KCall && fv.Ev != nil && fv.Ev.Role == "Std:atomic.LoadInt64" && len(fv.Ev.Args) == 1 && fv.Ev.Args[0].Field != nil && fname(fv.Ev.Args[0].Field) == "C"
@@ -702,7 +702,7 @@ func (c *Ctx) c12Wiring(b BK) {
 	}
 	// constructor selection
 	ctor := "New" + b.Wrapper
-	e, paths, _, err := c.runFunc(ctor, pw.Policy{Inline: inlineUnexported, MaxDepth: 2})
+	e, paths, _, err := c.runFunc(ctor, pw.Policy{Inline: inlineUnexported, MaxDepth: 2, WalkFuncArgs: isTraitCtor})
 	if err != nil {
 		r.Unknown("R12.3", ctor, err.Error())
 		return
@@ -710,10 +710,24 @@ func (c *Ctx) c12Wiring(b BK) {
 	zero := e.IntConst(0)
 	n := 0
 	bad := false
+	// the selection may also be made inside the option callback handed to the Trait constructor (it sees the final Config):
+	// the callback's paths, walked with the constructor's state, are judged like the constructor's own
+	var all []*pw.Path
 	for _, p := range paths {
+		all = append(all, p)
+		for _, ev := range p.Events {
+			if ev.Kind == pw.EvCall && len(ev.Sub) > 0 {
+				all = append(all, ev.Sub...)
+			}
+		}
+	}
+	for _, p := range all {
 		var strat *pw.Val
 		var evict *pw.Val
 		for _, ev := range p.Events {
+			if ev.Kind == pw.EvFieldWrite && ev.Field != nil && fname(ev.Field) == "Evict" && ev.Value != nil && ev.Value.Kind == pw.KFuncRef && ev.Value.Obj != nil && strings.HasPrefix(ev.Value.Obj.Name(), "evict") {
+				evict = ev.Value // the last write counts
+			}
 			if ev.Kind == pw.EvFieldRead && ev.Field != nil && fname(ev.Field) == "EvictionStrategy" {
 				strat = ev.Value
 			}
@@ -749,6 +763,7 @@ func (c *Ctx) c12Wiring(b BK) {
 	var ctorBodies []*ast.FuncDecl
 	if fd != nil {
 		ctorBodies = c.reachBodies(fd, 2)
+		ctorBodies = append(ctorBodies, c.referencedFuncs(ctorBodies)...)
 	}
 	for _, bd := range ctorBodies {
 		ast.Inspect(bd.Body, func(x ast.Node) bool {
@@ -779,6 +794,9 @@ func (c *Ctx) c12Wiring(b BK) {
 		})
 	}
 	for f, w := range want {
+		if f == "Evict" && strings.HasPrefix(got[f], "evict") {
+			continue // one of the backend's evictors (which one: strategy-wiring above)
+		}
 		if got[f] != w {
 			r.Bad("R12.3", ctor, "callback-wiring:"+f, c.Pos(fd.Pos()), fmt.Sprintf("the constructor does not install this backend's %s as Trait.%s (cleanup / count limit / eviction would silently not run)", w, f), nil)
 			bad = true
@@ -789,6 +807,12 @@ func (c *Ctx) c12Wiring(b BK) {
 	} else if !bad {
 		r.OK("R12.3", ctor, "EvictMostExpired ⇒ evictMostExpired, otherwise evictLeastCounter")
 	}
+}
+
+// isTraitCtor: the constructors of the shared Trait, which invoke option callbacks.
+func isTraitCtor(fn *types.Func) bool {
+	n := pw.FuncName(fn)
+	return n == "cache.NewTrait" || n == "cache.NewTraitOf"
 }
 
 func relSetStr(rel uint8) string {
@@ -859,8 +883,21 @@ func (c *Ctx) c12Counter() {
 				continue
 			}
 			for sname, sv := range strategies {
-				if p.Rel(strat, e.IntConst(sv)) != pw.REq {
-					continue
+				if rel := p.Rel(strat, e.IntConst(sv)); rel != pw.REq {
+					// also the strategy of this path when every other strategy is excluded (the default arm of a switch,
+					// the fall-through of an if chain) and this one is not
+					if rel&pw.REq == 0 {
+						continue
+					}
+					others := false
+					for oname, ov := range strategies {
+						if oname != sname && p.Rel(strat, e.IntConst(ov))&pw.REq != 0 {
+							others = true
+						}
+					}
+					if others {
+						continue
+					}
 				}
 				seen[sname]++
 				switch sname {
